@@ -330,6 +330,7 @@ pub fn minimise(args: &Args, full: &Spec, differing: usize) -> Minimised {
             p.clock_step_ns = crate::sim_entropy::REF_CLOCK_STEP_NS;
         }),
         Box::new(|p| p.pid = crate::sim_entropy::REF_PID),
+        Box::new(|p| p.rss_kib = crate::sim_entropy::REF_RSS_KIB),
         Box::new(|p| p.repeat = 0),
         Box::new(|p| p.stall.clear()),
         Box::new(|p| p.linger.clear()),
